@@ -11,6 +11,7 @@
  *   REG inaddr <path> <host|%00> <service|%00>
  *   LOAD <file>             conf_read(); prints "LOAD rc=<n>"
  *   DUMP                    canonical dump of the live tree (values hex-encoded)
+ *   COPY <src> <dst>        overwrite the file dst in place with the content of src
  *   SNAP / SAME             remember the dump / compare the current dump with it
  *   HOOKS                   print and clear the update-hook log
  *   LOGREG <facility>       log_type_register()
@@ -339,6 +340,31 @@ static int run_command(char *line)
         int rc = conf_read(f);
         printf("LOAD rc=%d\n", rc);
         free(f);
+    } else if (!strcmp(argv[0], "XLOAD") && argc >= 2) {
+        /* a load that is expected to be rejected */
+        char *f = pct_decode(argv[1], NULL);
+        int rc = conf_read(f);
+        printf("XLOAD rc=%d\n", rc);
+        free(f);
+    } else if (!strcmp(argv[0], "COPY") && argc >= 3) {
+        /* COPY <src> <dst>: overwrite dst in place (same inode when it exists), the way an editor that
+         * does not rename writes a configuration file */
+        char *src = pct_decode(argv[1], NULL), *dst = pct_decode(argv[2], NULL);
+        FILE *in = fopen(src, "rb"), *out = in ? fopen(dst, "wb") : NULL;
+        char buf[4096];
+        size_t n;
+        int ok = 0;
+        if (in && out) {
+            ok = 1;
+            while ((n = fread(buf, 1, sizeof(buf), in)) > 0)
+                if (fwrite(buf, 1, n, out) != n)
+                    ok = 0;
+        }
+        if (in) fclose(in);
+        if (out && fclose(out)) ok = 0;
+        printf("COPY ok=%d\n", ok);
+        free(src);
+        free(dst);
     } else if (!strcmp(argv[0], "DUMP")) {
         char *d = make_dump();
         printf("DUMP-BEGIN\n%sDUMP-END\n", d);
